@@ -257,5 +257,5 @@ def strategy(draw):
 
 PHASES = [
     Phase("cases", run_case, strategy=strategy,
-          examples={"quick": 4000, "thorough": 50000}),
+          examples={"quick": 4000, "thorough": 200000}),
 ]
